@@ -116,14 +116,29 @@ func runC13(r *Run) {
 			c.RefTable, c.ValRefTable = "", ""
 			t.Cols = append(t.Cols, c)
 		}
+		// a schema index on the first scalar string/integer column, and a client index on the next one,
+		// so that lookups by model go through the indexes and not only through the uuid
+		var idxCols []string
+		for _, c := range t.Cols {
+			if c.Type.Kind == "atom" && (c.Type.Key == "string" || c.Type.Key == "integer") && len(idxCols) < 2 {
+				idxCols = append(idxCols, c.Name)
+			}
+		}
+		var clientIdx map[string][]model.ClientIndex
+		if len(idxCols) > 0 {
+			t.Indexes = [][]string{{idxCols[0]}}
+		}
+		if len(idxCols) > 1 {
+			clientIdx = map[string][]model.ClientIndex{"T": {{Columns: []model.ColumnKey{{Column: idxCols[1]}}}}}
+		}
 		spec := SchemaSpec{Name: "db", Tables: []TableSpec{t}}
-		db, err := BuildDB(spec, nil)
+		db, err := BuildDB(spec, clientIdx)
 		if err != nil {
 			continue
 		}
 		row := genC09Row(r.Rng, t)
 		c13Laws(r, db, t, row)
-		c13Cache(r, db, t, row)
+		c13Cache(r, db, t, row, idxCols)
 	}
 	c13Hand(r)
 	c13Client(r)
@@ -193,7 +208,7 @@ func c13Laws(r *Run, db *DB, t TableSpec, row Row) {
 }
 
 // c13Cache: the RowCache read and write paths
-func c13Cache(r *Run, db *DB, t TableSpec, row Row) {
+func c13Cache(r *Run, db *DB, t TableSpec, row Row, idxCols []string) {
 	cs := map[string]interface{}{"table": t, "model": ModelJ{mkUUID(1), row}}
 	tc, err := cache.NewTableCache(db.Model, nil, nil)
 	if err != nil {
@@ -249,6 +264,24 @@ func c13Cache(r *Run, db *DB, t TableSpec, row Row) {
 		for _, x := range xs {
 			if !check("RowsByModels", x) {
 				return
+			}
+		}
+	}
+	// lookups that resolve through an index: a model carrying only the index column, no uuid
+	for i, col := range idxCols {
+		probe := db.NewModel("T", "", Row{col: row[col]})
+		if i == 0 {
+			if _, x, err := rc.RowByModel(probe); err == nil {
+				if !check("RowByModel(schema index)", x) {
+					return
+				}
+			}
+		}
+		if xs, err := rc.RowsByModels([]model.Model{probe}); err == nil {
+			for _, x := range xs {
+				if !check(fmt.Sprintf("RowsByModels(index %d)", i), x) {
+					return
+				}
 			}
 		}
 	}
